@@ -224,14 +224,21 @@ def run(ck, fb, fbd):
             # the two sides of a face are opposite: the cross-product formula is only evaluated for one side, the other is its
             # negation (evaluating it on the reversed halfedge list picks another corner of the face)
             from .canon import ceq
-            odd = [(b_, x_) for b_, i_, x_ in rets if re.fullmatch(r"-(this\.)?normal\((\w+::)?opposite_halfface_handle\(P0\)\)|\(-1(\.0)? \* normal\(opposite_halfface_handle\(P0\)\)\)|-normal\(P0\.opposite_handle\(\)\)", cn.s(x_.get("x")))]
+            NEG = r"(\(?-1(\.0)?\w*\)?|\(?-\(?1(\.0)?\w*\)?\)?)"
+            NOPP = r"(this\.)?normal\((\w+::)?opposite_halfface_handle\(P0\)\)"
+            odd = [(b_, x_) for b_, i_, x_ in rets if re.fullmatch(r"\(%s \* %s\)|\(%s \* %s\)" % (NOPP, NEG, NEG, NOPP), cn.s(x_.get("x"))) or re.fullmatch(r"-(this\.)?normal\((\w+::)?opposite_halfface_handle\(P0\)\)|\(-1(\.0)? \* normal\(opposite_halfface_handle\(P0\)\)\)|-normal\(P0\.opposite_handle\(\)\)", cn.s(x_.get("x")))]
             okodd = False
             for b_, x_ in odd:
                 fs_ = {(s_, p_) for s_, p_, c_ in cn.facts(b_)}
                 if (ceq("P0.subidx()", "1"), True) in fs_ or (ceq("(P0.idx() % 2)", "1"), True) in fs_ or (ceq("P0.subidx()", "0"), False) in fs_ or (ceq("(P0.idx() & 1)", "1"), True) in fs_ or ("(P0.idx() & 1)", True) in fs_:
                     okodd = True
             mainside = any((ceq("P0.subidx()", "1"), False) in {(s_, p_) for s_, p_, c_ in cn.facts(b_)} or (ceq("(P0.idx() % 2)", "1"), False) in {(s_, p_) for s_, p_, c_ in cn.facts(b_)} or (ceq("P0.subidx()", "0"), True) in {(s_, p_) for s_, p_, c_ in cn.facts(b_)} or ("(P0.idx() & 1)", False) in {(s_, p_) for s_, p_, c_ in cn.facts(b_)} for b_, i_, x_ in main)
-            (ck.ok if (okodd and mainside) else lambda r, w, t: ck.violate(r, w, t, "C19.geom:normal:sides"))("C19.geom", f.where, "normal(hf): the formula is evaluated for one side of the face only and the other side returns the negated normal of its opposite (odd-side return %s, formula restricted to the even side %s)" % (okodd, mainside))
+            oddfacts = lambda fs_: (ceq("P0.subidx()", "1"), True) in fs_ or (ceq("(P0.idx() % 2)", "1"), True) in fs_ or (ceq("P0.subidx()", "0"), False) in fs_ or (ceq("(P0.idx() & 1)", "1"), True) in fs_ or ("(P0.idx() & 1)", True) in fs_
+            other_odd = [cn.s(x_.get("x")) for b_, i_, x_ in rets if oddfacts({(s_, p_) for s_, p_, c_ in cn.facts(b_)}) and (b_, x_) not in odd]
+            if not okodd and other_odd:
+                ck.cannot_judge("C19.geom %s: normal(hf) treats the odd side separately, but not as the negated normal of the opposite halfface (%s) - not judged" % (f.where, other_odd[0][:80]))
+            else:
+              (ck.ok if (okodd and mainside) else lambda r, w, t: ck.violate(r, w, t, "C19.geom:normal:sides"))("C19.geom", f.where, "normal(hf): the formula is evaluated for one side of the face only and the other side returns the negated normal of its opposite (odd-side return %s, formula restricted to the even side %s)" % (okodd, mainside))
             (ck.ok if ok else lambda r, w, t: ck.violate(r, w, t, "C19.geom:normal"))("C19.geom", f.where, "normal(hf) = ((p2-p1) x (p3-p2)).normalized() with p1,p2 the ends of the first and p3 the end of the second halfedge of the halfface (%s)" % why)
     ck.floor("geometry_queries", ng, 12)
 
